@@ -35,6 +35,7 @@ def worker(k, items):
         env = dict(os.environ, VERIF_REPO=wt, VERIF_CACHE=f"{VERIF}/.cache/w{k}", VERIF_OUT=out)
         r = subprocess.run(["./check"] + (os.environ.get("CHECKS", "all").split()), cwd=VERIF, env=env, text=True, stdout=subprocess.PIPE, stderr=subprocess.STDOUT)
         viol = {}
+        fired_props = set(re.findall(r"^VIOLATION property=(C\d+)", r.stdout, re.M))
         for line in r.stdout.splitlines():
             m = re.search(r"key=(\S.*)$", line)
             if m and "VIOLATION" not in line:
@@ -42,9 +43,9 @@ def worker(k, items):
                 prop = None
                 viol.setdefault(key.split(".")[0], []).append(key)
         res["violations"] = viol
-        res["fired_properties"] = sorted(viol)
+        res["fired_properties"] = sorted(fired_props)
         prop = sd.split("-")[0]
-        res["own_property_fired"] = prop in viol
+        res["own_property_fired"] = prop in fired_props
         json.dump(res, open(os.path.join(d, "detect.json"), "w"), indent=1)
         print(sd, "own" if res["own_property_fired"] else "MISSED", sorted(viol), flush=True)
     sh(f"git -C /repo worktree remove --force {wt}")
